@@ -177,6 +177,9 @@ def gen_ecorpus(seed):
                  dict(kind="derive_input", names=["a", "keep"], fwd=["keep", "doc"], attrs_field="plain"),
                  dict(kind="variant", names=["my::attr", "a"], fwd=["my::tool", "my::attr"], attrs_field="fa_len"),
                  dict(kind="attributes", names=["a", "b::c::d"], fwd="all", attrs_field="plain"),
+                 # declared GLOBAL paths select global attributes and nothing else
+                 dict(kind="derive_input", names=["::a", "b"], fwd=["::keep", "a", "b"], attrs_field="plain"),
+                 dict(kind="field", names=["::my::attr"], fwd=["::doc", "::my::attr"], attrs_field="fa_len"),
                  dict(kind="type_param", names=["a"], fwd=["doc"], attrs_field="fa_max1")]:
         x = base(rng, nm(), spec["kind"], recvs, by_name, nfields=0 if not spec["names"] else 2, names=spec["names"], fwd=spec["fwd"],
                  attrs_field=spec["attrs_field"])
